@@ -250,10 +250,10 @@ func (pmt *Payment) calculate() error {
 	r := pmt.RegimeDef()
 
 	// Convert empty or invalid currency to the regime's currency
-	if pmt.Currency == currency.CodeEmpty && r != nil {
+	if (pmt.Currency == currency.CodeEmpty || pmt.Currency.Def() == nil) && r != nil {
 		pmt.Currency = r.Currency
 	}
-	if pmt.Currency == currency.CodeEmpty {
+	if pmt.Currency == currency.CodeEmpty || pmt.Currency.Def() == nil {
 		return validation.Errors{
 			"currency": fmt.Errorf("required, unable to determine"),
 		}
@@ -274,6 +274,17 @@ func (pmt *Payment) calculate() error {
 			cur := l.Document.Currency
 			if cur == currency.CodeEmpty {
 				cur = pmt.Currency
+			}
+			if cur.Def() == nil {
+				return validation.Errors{
+					"lines": validation.Errors{
+						strconv.Itoa(i): validation.Errors{
+							"document": validation.Errors{
+								"currency": fmt.Errorf("invalid code '%v'", cur),
+							},
+						},
+					},
+				}
 			}
 			l.Document.Calculate(cur, r.GetRoundingRule())
 			lt = l.Document.Tax.Clone()
